@@ -315,6 +315,15 @@ func c01(x *mon.Ctx) {
 	x.Rule = "(a) every single-bit mutant of the header, TD body, attestation key, QE report and QE auth data of accepted quotes (generated worlds + the two Intel samples) must be rejected; (b) structured one-link-broken forgeries, everything else re-signed, at 3 option levels x entry forms, each derived from a world whose unbroken twin was accepted (twin acceptance is checked, else the run is broken); (c) bit flips in signatures / certificate chain and random multi-byte mutants judged by the reference predicate Authentic(q) (accept => authentic). Non-trivial = the mutant was derived from an accepted twin and was rejected, or was accepted together with the reference; distinct = distinct (class, parameter, form, level)."
 	x.Assume = []string{"ECDSA-P256/SHA-256 unforgeability (a flipped bit verifying by chance has probability ~2^-128)", "Go crypto/ecdsa, crypto/x509, encoding/pem are correct"}
 
+	// ---- a collateral getter that panics instead of returning: a forged quote is still not reported as verified
+	{
+		w := richHonest(x.Rand("crashing-getter"))
+		w.Q.SignQE(world.NewKey()) // QE report signed by a key that is not the PCK leaf's
+		crashingCollaborators(x, "forged-quote-and-a-crashing-getter", w.Case(world.LColl, "qe-report-signed-by-another-key", "crashing-getter"))
+		w2 := richHonest(x.Rand("crashing-getter-2"))
+		w2.Q.Body[140] ^= 0x10 // TD body edited, quote signature not redone
+		crashingCollaborators(x, "edited-body-and-a-crashing-getter", w2.Case(world.LColl, "td-body-edited", "crashing-getter"))
+	}
 	// ---- (b) structured forgeries
 	enableShadowForTwins(x)
 	nw := x.Pick(6, 40)
